@@ -148,8 +148,16 @@ def build_case(r, tier):
     elif mode == "tee_verb":
         app = r.chance(0.3)
         tail = r.choice([[], [["head", "-n", "2"]], [["put", "$v = \"mutated\""]], [["put", "-q", "true"]], [["sort", "-f", "v"], ["head", "-n", "1"]],
-                         [["put", "$* = mapexcept($*, \"w\")"], ["head", "-n", "3"]]])
-        case.update({"verbs": [["tee"] + (["-a"] if app else []) + ["tee_target.out"]] + tail, "append": app})
+                         [["put", "$* = mapexcept($*, \"w\")"], ["head", "-n", "3"]], "second", "second", "second"])
+        second = None
+        if tail == "second":
+            # "tee passes every record on even when a later head stops early": a second fan-out stage between the tee
+            # verb and the head must therefore see the whole stream too
+            second = r.choice(["tee_stmt", "split", "tee_verb", "print_stmt"])
+            mid = {"tee_stmt": ["put", "tee > \"second.out\", $*"], "split": ["split", "-n", "100000", "--prefix", "second", "--suffix", "out"],
+                   "tee_verb": ["tee", "second.out"], "print_stmt": ["put", "print > \"second.out\", $id"]}[second]
+            tail = r.choice([[], [["cat"]]]) + [mid] + r.choice([[], [["cat", "-n"]]]) + [["head", "-n", str(r.choice([1, 2, 5]))]]
+        case.update({"verbs": [["tee"] + (["-a"] if app else []) + ["tee_target.out"]] + tail, "append": app, "second": second})
         if app:
             case["pre"]["tee_target.out"] = "PRE-EXISTING LINE\n"
     elif mode in ("dsl", "pipe"):
@@ -182,6 +190,12 @@ def build_case(r, tier):
             for k in keys[:max(1, len(keys) // 2)]:
                 case["pre"]["d_%s.out" % k] = "PRE-EXISTING LINE\n"
     case["args_tail"] = oflags
+    # write mode (not append): files left over from an earlier run must be replaced, whenever the target is first opened
+    is_append = case.get("append") or (case.get("split") or {}).get("append")
+    if not is_append and mode != "pipe" and r.chance(0.35):
+        tm, _ = target_map(case)
+        names = list(tm)
+        case["stale"] = r.sample(names, max(1, len(names) // 2)) if r.chance(0.7) else names[-max(1, len(names) // 3):]
     return case
 
 
@@ -207,6 +221,8 @@ def target_map(case):
             fn = "sp_%d.out" % (1 + i // case["count"])
         elif mode == "tee_verb":
             fn = "tee_target.out"
+            if case.get("second"):
+                tm.setdefault("second_1.out" if case["second"] == "split" else "second.out", []).append(i)
         elif mode == "dsl":
             fn = "d_%s.out" % k
         else:
@@ -224,9 +240,11 @@ def with_batch(args, batch):
     return [args[0]] + (["--records-per-batch", str(batch)] if batch else []) + list(args[1:])
 
 
-def expected_for(case, idxs, chk, vd):
+def expected_for(case, idxs, chk, vd, fn=None):
     """Bytes the same tree prints for the un-redirected statement on exactly this sublist (staged)."""
     sub = [case["recs"][i] for i in idxs]
+    if fn and fn.startswith("second") and case.get("second") == "print_stmt":
+        return "".join(rec[1][1] + "\n" for rec in sub).encode()
     text = render(case["ifmt"], sub)
     if case["kind"] in ("dsl", "pipe"):
         verbs = [["put", "-q", case["plain"]]]
@@ -278,12 +296,15 @@ def evaluate(case, chk):
     for k, v in case["pre"].items():
         files[k] = v.encode()
     tm, acc = target_map(case)
+    for fn in case.get("stale") or []:
+        if fn in tm and fn not in case["pre"]:
+            files[fn] = b"STALE CONTENT FROM AN EARLIER RUN\n" * 3
     revisited, model_maxopen = lru_model(case["lru"], acc) if case["kind"] in ("split_g", "split_m", "dsl") else (set(), 1)
     args = main_args(case)
     # expected documents
     expected = {}
     for fn, idxs in tm.items():
-        e = expected_for(case, idxs, chk, vd)
+        e = expected_for(case, idxs, chk, vd, fn)
         if e is None:
             vd.skipped = "expected-unavailable"
             return vd
